@@ -303,7 +303,8 @@ ASSUME = ['values are JSON-like (string-keyed dictionaries, no callables, no dic
 
 
 def main(argv):
-    return run_check('C13', [PairStream()], argv, trusted_base=TRUSTED, assumptions=ASSUME)
+    return run_check('C13', [PairStream()], argv, trusted_base=TRUSTED, assumptions=ASSUME,
+                     translated=('pin_inquiry',))
 
 
 if __name__ == '__main__':
